@@ -612,3 +612,98 @@ def replay_c18(path):
             print(json.dumps(dict(program=d['program'], unreported_reads=sorted(extra), undeclared=o['undeclared'])))
             return True
     return False
+
+
+# ---------------------------------------------------------------------------------------------
+# C06: from-import bindings
+# ---------------------------------------------------------------------------------------------
+def run_c06(prop, tier, seed):
+    """Every `{% from "m" import n as a, ... %}` of the import family: on the real instruction stream z3
+    decides whether some imported module exists for which an alias is bound to anything but the module's
+    export of its own name; sat is replayed by rendering the program next to a module that defines a, b, c."""
+    t0 = time.time()
+    ev = dict(engine='B', violations=[], known_hits=[], problems=[], coverage={})
+    err = build_native()
+    if err:
+        ev['problems'].append('engine B: native tools did not build: ' + err[-400:])
+        return ev
+    fam = G.import_family()
+    for i, p in enumerate(fam):
+        p['id'] = i
+    dumps = {d['id']: d for d in run_tool('dump', [dict(id=p['id'], src=p['src']) for p in fam], timeout=600)}
+    nq = nun = nsat = nconf = 0
+    z3s = 0.0
+    samples = []
+    ctx = {'l1': [1], 'c1': True}
+    for p in fam:
+        d = dumps.get(p['id'])
+        if d is None or 'error' in d:
+            ev['problems'].append('engine B/C06: the compiler rejected %r: %s' % (p['src'][:80], (d or {}).get('error')))
+            continue
+        streams = [('root', d['instrs'])] + [('block ' + k, v) for k, v in sorted((d.get('blocks') or {}).items())]
+        sites = [(nm, ins, pc) for nm, ins in streams for pc in E.from_import_sites(ins)]
+        if len(sites) != 1:
+            ev['problems'].append('engine B/C06: expected one from-import site in %r, found %d' % (p['src'][:80], len(sites)))
+            continue
+        nm, ins, pc = sites[0]
+        verdict, info, dt, stats = E.sym_from_import(ins, pc, p['items'])
+        z3s += dt
+        nq += 1
+        if len(samples) < 4:
+            samples.append(dict(program=p['src'], unit=nm, include_pc=pc, verdict=verdict))
+        if verdict == 'unsat':
+            nun += 1
+            continue
+        if verdict != 'sat':
+            ev['problems'].append('engine B/C06: %s (%s) for %r' % (verdict, info, p['src'][:80]))
+            continue
+        nsat += 1
+        o = run_tool('render', [dict(src=p['src'], ctx=ctx, templates={'m': G.MODULE_SRC})])[0]
+        ok = 'ok' in o and p['expected'] in o['ok']
+        if ok:
+            ev['problems'].append('engine B/C06: solver finds a wrong binding in %r (%s) but the native render is as expected' % (p['src'][:80], info))
+            continue
+        nconf += 1
+        if len(ev['violations']) < 5:
+            h = hashlib.sha1(p['src'].encode()).hexdigest()[:10]
+            rp = os.path.join(nativelib.replay_dir(), '%s-B-%s.json' % (prop, h))
+            json.dump(dict(property=prop, engine='B', kind='from-import', program=p['src'], items=p['items'], module=G.MODULE_SRC,
+                           bytecode_path=_js(info), native=dict(context=ctx, output=o.get('ok', o), expected_fragment=p['expected']),
+                           how='bin/check %s --replay %s' % (prop, rp)), open(rp, 'w'), indent=1)
+            ev['violations'].append(dict(replay=rp, failed=[dict(
+                desc='from-import %s: an alias is not bound to the module\'s export of its own name (%s); native render %r lacks %r' % (
+                    p['items'], info, str(o.get('ok', o))[:120], p['expected']), loc='%s @%d' % (nm, pc))]))
+    log('[%s] engine B from-import: %d programs, %d queries: unsat=%d sat=%d (confirmed natively %d), z3 %.1fs' % (
+        prop, len(fam), nq, nun, nsat, nconf, z3s))
+    # validation of the native oracle (not deciding): a sample of unsat programs must render as expected
+    val = 0
+    rnd = random.Random(seed + 6)
+    for p in rnd.sample(fam, min(12, len(fam))):
+        o = run_tool('render', [dict(src=p['src'], ctx=ctx, templates={'m': G.MODULE_SRC})])[0]
+        val += 1
+        if not ('ok' in o and p['expected'] in o['ok']) and not ev['violations']:
+            ev['problems'].append('engine B/C06: %r renders %r, expected fragment %r, although no wrong binding was found on its bytecode' % (
+                p['src'][:80], str(o.get('ok', o))[:120], p['expected']))
+    ev['coverage'] = dict(
+        programs=len(fam), disagreements_checked=nsat, samples=samples,
+        evaluations=nq, distinct_nontrivial=nun + nconf,
+        rule='one program = one from-import statement (10 item lists incl. colliding and swapped aliases x 6 placements); '
+             'one evaluation = one z3 query over ALL imported modules (which of the mentioned names the module defines is symbolic) '
+             'on the instruction stream the real compiler emitted; non-trivial = decided unsat, or sat and confirmed natively',
+        queries=nq, unsat=nun, sat=nsat, sat_confirmed_natively=nconf, z3_seconds=round(z3s, 2),
+        native_validation_renders=val,
+        family='from "m" import <1-3 items over a,b,c,v with/without aliases> at top level / in for / if / with / macro / block',
+        exhaustive=False)
+    ev['wall_s'] = round(time.time() - t0, 1)
+    return ev
+
+
+def replay_c06(path):
+    d = json.load(open(path))
+    err = build_native()
+    if err:
+        print(err)
+        return False
+    o = run_tool('render', [dict(src=d['program'], ctx=d['native']['context'], templates={'m': d['module']})])[0]
+    print(json.dumps(o))
+    return not ('ok' in o and d['native']['expected_fragment'] in o['ok'])
